@@ -517,3 +517,79 @@ UNITS += [
          assumptions=["the values in data.indices are positions among the step's new initializers (< num_new_tracks; produced by partition_initializers)", "counters describe the filled parts of the arrays (established by the extend_from_* actions, C16/C02 units)"],
          note="InitTracksExecutor::operator() index slice (two spans of the real text): every read of initializers / vacancies / parents / indices is in bounds and at the position that makes the assignment thread -> initializer/vacancy/parent injective (counted from the back; via the partitioned index array when sorting by charge); primaries never read the parent array; callee preconditions hold"),
 ]
+
+
+# ---------------------------------------------------------------------------
+# InitializeTracksAction::step_impl<M> (host): how many tracks start, which index table the kernel reads, counters afterwards
+# ---------------------------------------------------------------------------
+ITA = "src/celeritas/track/InitializeTracksAction.cc"
+ITA_MODEL = """
+typedef struct { size_type num_initializers, num_vacancies, num_secondaries, num_alive, num_active, num_generated, num_pending; } CoreStateCounters;
+typedef struct { CoreStateCounters counters; size_type size_; bool warming_up_; } CoreState;
+enum { TO_none = 0, TO_init_charge = 5 };
+typedef struct { int track_order; } CoreParams;
+/* ghost: what init.indices[0 .. count) holds.  STALE: whatever an earlier step left (a permutation of [0, earlier count), NOT of [0, count));
+   IDENTITY: 0, 1, 2, ... (fill_sequence);  PARTITIONED: a permutation of [0, count), neutral first (stable_partition of the identity) */
+enum { IX_STALE = 0, IX_IDENTITY = 1, IX_PARTITIONED = 2 };
+int g_indices; size_type g_part_count, g_launch_count; int g_launches, g_parents_cleared;
+void ITA_fill_sequence(CoreState* st) __CPROVER_requires(st != 0) __CPROVER_assigns(g_indices) __CPROVER_ensures(g_indices == IX_IDENTITY);
+/* partition_initializers(params, init, counters, count, stream): std::stable_partition of indices[0, count) by the charge of initializer
+   [num_initializers - count + index]: the entries must be a permutation of [0, count) -- otherwise an index reaches outside the new initializers */
+void ITA_partition_initializers(CoreParams const* p, CoreState* st, size_type count)
+__CPROVER_requires(st != 0 && g_indices == IX_IDENTITY && count <= st->counters.num_initializers)
+__CPROVER_assigns(g_indices, g_part_count) __CPROVER_ensures(g_indices == IX_PARTITIONED && g_part_count == count);
+/* kernel launch: InitTracksExecutor for thread ids [0, num_new_tracks) (units c02_init_tracks_indices, c17_launch_core): with charge ordering it reads
+   indices[tid], which must be the partitioned permutation of exactly this many entries */
+void ITA_launch(CoreParams const* p, CoreState* st, size_type num_new_tracks)
+__CPROVER_requires(st != 0 && num_new_tracks <= st->counters.num_initializers && num_new_tracks <= st->counters.num_vacancies)
+__CPROVER_requires(p->track_order != TO_init_charge || (g_indices == IX_PARTITIONED && g_part_count == num_new_tracks))
+__CPROVER_assigns(g_launches, g_launch_count) __CPROVER_ensures(g_launches == __CPROVER_old(g_launches) + 1 && g_launch_count == num_new_tracks);
+void ITA_clear_parents(CoreState* st) __CPROVER_requires(st != 0) __CPROVER_assigns(g_parents_cleared) __CPROVER_ensures(g_parents_cleared == 1);
+static size_type MIN(size_type a, size_type b) { return b < a ? b : a; }
+"""
+ITA_RULES = [
+    Rule(r"auto& counters = core_state\.counters\(\);", "CoreStateCounters* counters_ = &core_state->counters;", 1, note="reference -> pointer"),
+    Rule(r"\bcounters\.", "counters_->", "+", note="reference -> pointer"),
+    Rule(r"std::min\(", "MIN(", "*", note="std::min<size_type>"),
+    Rule(r"core_state\.warming_up\(\)", "core_state->warming_up_", "*", note="CoreState::warming_up()"),
+    Rule(r"core_params\.init\(\)->track_order\(\) == TrackOrder::init_charge", "core_params->track_order == TO_init_charge", "*", note="TrackInitParams::track_order()"),
+    Rule(r"fill_sequence\(&core_state\.ref\(\)\.init\.indices,\s*core_state\.stream_id\(\)\);", "ITA_fill_sequence(core_state);", "*", note="fill_sequence(indices) -> ghost state IDENTITY"),
+    Rule(r"partition_initializers\(core_params,\s*core_state\.ref\(\)\.init,\s*counters,\s*(\w+),\s*core_state\.stream_id\(\)\);", r"ITA_partition_initializers(core_params, core_state, \1);", "*", note="partition_initializers -> stub (std::stable_partition, assumed contract)"),
+    Rule(r"this->step_impl\(core_params, core_state, (\w+)\);", r"ITA_launch(core_params, core_state, \1);", "*", note="kernel launch -> stub"),
+    Rule(r"fill\(TrackSlotId\{\}, &core_state\.ref\(\)\.init\.parents\);", "ITA_clear_parents(core_state);", "*", note="fill(parents) -> ghost"),
+    Rule(r"core_state\.size\(\)", "core_state->size_", "*", note="CoreState::size()"),
+]
+
+
+def build_init_tracks_step(ctx):
+    pc = ctx.func(ITA, r"^void InitializeTracksAction::step_impl\(CoreParams const& core_params,\s*CoreState<M>& core_state\) const", ITA_RULES, name="InitializeTracksAction::step_impl<M>")
+    return (HDR + ITA_MODEL + """
+void ITA_step_impl(CoreParams const* core_params, CoreState* core_state)
+__CPROVER_requires(core_params != 0 && core_state != 0 && g_launches == 0 && g_indices == IX_STALE && g_parents_cleared == 0)
+__CPROVER_requires(core_state->counters.num_vacancies <= core_state->size_)         /* invariant between steps */
+__CPROVER_assigns(g_indices, g_part_count, g_launches, g_launch_count, g_parents_cleared, core_state->counters)
+/* as many tracks start as there are both initializers and vacant slots; the kernel is launched once, for exactly that many threads (or not at all when there is nothing to do) */
+__CPROVER_ensures(g_launches <= 1 && (g_launches == 1 ==> g_launch_count == MIN(__CPROVER_old(core_state->counters.num_vacancies), __CPROVER_old(core_state->counters.num_initializers))))
+__CPROVER_ensures(MIN(__CPROVER_old(core_state->counters.num_vacancies), __CPROVER_old(core_state->counters.num_initializers)) > 0 ==> g_launches == 1)
+/* counters afterwards: the started tracks leave the queue and occupy vacancies; active = slots in use */
+__CPROVER_ensures(core_state->counters.num_initializers == __CPROVER_old(core_state->counters.num_initializers) - MIN(__CPROVER_old(core_state->counters.num_vacancies), __CPROVER_old(core_state->counters.num_initializers)))
+__CPROVER_ensures(core_state->counters.num_vacancies == __CPROVER_old(core_state->counters.num_vacancies) - MIN(__CPROVER_old(core_state->counters.num_vacancies), __CPROVER_old(core_state->counters.num_initializers)))
+__CPROVER_ensures(core_state->counters.num_active == core_state->size_ - core_state->counters.num_vacancies)
+/* with charge ordering the stale parent ids are cleared after the launch */
+__CPROVER_ensures((g_launches == 1 && core_params->track_order == TO_init_charge) ==> g_parents_cleared == 1)
+{""" + pc.body + """}
+void h_ita(void)
+{
+    CoreParams p; CoreState s; unsigned w; s.warming_up_ = (w != 0);
+    ITA_step_impl(&p, &s);
+    VERIF_CANARY();
+}
+""")
+
+
+UNITS += [
+    Unit("c02_init_tracks_step", build_init_tracks_step, "h_ita", enforce="ITA_step_impl", replace=["ITA_fill_sequence", "ITA_partition_initializers", "ITA_launch", "ITA_clear_parents"], timeout=120,
+         must_have=[r"ITA_step_impl.postcondition", r"ITA_launch.precondition", r"ITA_partition_initializers.precondition"], checks=["--bounds-check", "--pointer-check", "--unsigned-overflow-check"],
+         assumptions=["std::stable_partition (partition_initializers) and fill_sequence by assumed contracts; the index table is a ghost state (stale / identity / partitioned)", "kernel launch replaced by its contract (c02_init_tracks_indices, c17_launch_core)"],
+         note="InitializeTracksAction::step_impl (host): min(vacancies, initializers) tracks are started by one launch; with charge ordering the index table is re-filled and partitioned for exactly that count before the kernel reads it; counters afterwards (queue, vacancies, active)"),
+]
